@@ -254,7 +254,16 @@ class Gen:
     def listener(self, name=None):
         r = self.r
         name = r.choice(LIS_NAMES) if name is None else name
-        return C("Build_listener_pb", name, L(self.chain() for _ in range(r.choice([0, 1, 1, 2, 3]))), self.opt(self.chain, 0.6))
+        chains = [self.chain() for _ in range(r.choice([0, 1, 1, 2, 3]))]
+        default = self.opt(self.chain, 0.6)
+        # the very same network filters (byte for byte) under another destination port, as the inbound listener of a mesh has them
+        if chains and r.random() < 0.3:
+            src = r.choice(chains)
+            twin = C("Build_fchain_pb", Some(r.choice([0, 80, 8888, 9090, 15006])), src[2])
+            if r.random() < 0.3 and default is None:
+                default = Some(C("Build_fchain_pb", None, src[2]))
+            chains.insert(r.randint(0, len(chains)), twin)
+        return C("Build_listener_pb", name, L(chains), default)
 
     def sock(self):
         r = self.r
